@@ -166,7 +166,7 @@ class MatchToIf(ast.NodeTransformer):
 
 # ------------------------------------------------------------------------------------------- D2 walrus
 # constructors of immutable helper objects: evaluating them has no effect and no order
-_CONST_CTORS = {"attrgetter", "operator.attrgetter", "itemgetter", "operator.itemgetter", "partial", "functools.partial", "np.dtype", "numpy.dtype", "struct.Struct", "Struct",
+_CONST_CTORS = {"attrgetter", "operator.attrgetter", "itemgetter", "operator.itemgetter", "methodcaller", "operator.methodcaller", "partial", "functools.partial", "np.dtype", "numpy.dtype", "struct.Struct", "Struct",
                 "slice", "frozenset"}
 def _walk_evaluated(e):
     """sub-expressions that are evaluated when e is (the body of a lambda is not)"""
@@ -314,6 +314,10 @@ class WhileToFor:
                 for idx, st in enumerate(stmts):
                     new = self.convert(st, stmts[:idx], stmts[idx + 1:], fn) if isinstance(st, ast.While) else None
                     out.append(new if new is not None else st)
+                    drop = getattr(new, "_drop_init", None) if new is not None else None
+                    if drop is not None:
+                        # the counter's initialisation is dead once the loop binds the counter itself
+                        out = [x for x in out if x is not drop]
                 setattr(owner, fld, out)
 
     def convert(self, w: ast.While, before, after, fn):
@@ -361,9 +365,14 @@ class WhileToFor:
             start = init.value
             if _names(start) & {n.id for s in w.body for n in ast.walk(s) if isinstance(n, ast.Name) and isinstance(n.ctx, ast.Store)}:
                 return None
+            if any(isinstance(x, ast.Call) and ast.unparse(x.func) not in PURE_FUNCS for x in ast.walk(init.value)):
+                return None          # the start value is computed by a call that is not known to be pure: it is not evaluated twice
             args = [bound] if isinstance(start, ast.Constant) and start.value == 0 else [copy.deepcopy(start), bound]
             it = ast.Call(func=ast.Name(id="range", ctx=ast.Load()), args=args, keywords=[])
-            return ast.copy_location(ast.For(target=ast.Name(id=i, ctx=ast.Store()), iter=it, body=w.body[:-1] or [ast.Pass()], orelse=[], type_comment=None), w)
+            res = ast.copy_location(ast.For(target=ast.Name(id=i, ctx=ast.Store()), iter=it, body=w.body[:-1] or [ast.Pass()], orelse=[], type_comment=None), w)
+            if not any(isinstance(x, ast.Call) and ast.unparse(x.func) not in PURE_FUNCS for x in ast.walk(init.value)):
+                res._drop_init = init
+            return res
         # B: r = N ... while r > 0: body with one `r -= 1` at its top level (first or last)     (r not otherwise used)
         if isinstance(op, ast.Gt) and isinstance(a, ast.Name) and isinstance(b, ast.Constant) and b.value == 0 and _is_incr(w.body[0], a.id, -1) and len(w.body) > 1 \
                 and not _is_incr(w.body[-1], a.id, -1):
@@ -374,7 +383,8 @@ class WhileToFor:
             used = any(r in _names(s) for s in w.body[:-1]) or loads_after(r)
             if init is None or used or any(r in _names(s) for s in before[before.index(init) + 1:]):
                 return None
-            it = ast.Call(func=ast.Name(id="range", ctx=ast.Load()), args=[copy.deepcopy(init.value)], keywords=[])
+            # the count stays where it is computed (it may be a stream read): the loop runs `r` times
+            it = ast.Call(func=ast.Name(id="range", ctx=ast.Load()), args=[ast.Name(id=r, ctx=ast.Load())], keywords=[])
             return ast.copy_location(ast.For(target=ast.Name(id="_", ctx=ast.Store()), iter=it, body=w.body[:-1] or [ast.Pass()], orelse=[], type_comment=None), w)
         # C: X = [] ... while len(X) < N: body; X.append(E)
         ln = _len_of(a)
@@ -506,8 +516,34 @@ class Desugar(ast.NodeTransformer):
             for p_ in node.func.args[0].value.split("."):    # attrgetter("a.b")(x) is x.a.b
                 out = ast.Attribute(value=out, attr=p_, ctx=ast.Load())
             return ast.copy_location(out, node)
+        # attrgetter("a", "b")(x)  ->  (x.a, x.b)
+        if isinstance(node.func, ast.Call) and ast.unparse(node.func.func) in ("attrgetter", "operator.attrgetter") and len(node.func.args) > 1 \
+                and all(isinstance(a, ast.Constant) and isinstance(a.value, str) and all(p_.isidentifier() for p_ in a.value.split(".")) for a in node.func.args) \
+                and len(node.args) == 1 and not node.keywords and isinstance(node.args[0], (ast.Name, ast.Attribute)):
+            elts = []
+            for a in node.func.args:
+                out = copy.deepcopy(node.args[0])
+                for p_ in a.value.split("."):
+                    out = ast.Attribute(value=out, attr=p_, ctx=ast.Load())
+                elts.append(out)
+            return ast.copy_location(ast.Tuple(elts=elts, ctx=ast.Load()), node)
+        # methodcaller("name", a, k=b)(x)  ->  x.name(a, k=b)
+        if isinstance(node.func, ast.Call) and ast.unparse(node.func.func) in ("methodcaller", "operator.methodcaller") and node.func.args \
+                and isinstance(node.func.args[0], ast.Constant) and isinstance(node.func.args[0].value, str) and node.func.args[0].value.isidentifier() \
+                and len(node.args) == 1 and not node.keywords and not isinstance(node.args[0], ast.Starred):
+            meth = ast.Attribute(value=node.args[0], attr=node.func.args[0].value, ctx=ast.Load())
+            return ast.copy_location(ast.Call(func=meth, args=list(node.func.args[1:]), keywords=list(node.func.keywords)), node)
         if isinstance(node.func, ast.Call) and ast.unparse(node.func.func) in ("itemgetter", "operator.itemgetter") and len(node.func.args) == 1 and len(node.args) == 1 and not node.keywords:
             return ast.copy_location(ast.Subscript(value=node.args[0], slice=node.func.args[0], ctx=ast.Load()), node)
+        # map(F, repeat(a, n), repeat(b)) -> (F(a, b) for _ in range(n))        (every argument a repeat of a name / literal; one of them bounded)
+        if fn == "map" and len(node.args) >= 3 and not node.keywords and isinstance(node.args[0], (ast.Name, ast.Attribute)) \
+                and all(isinstance(x, ast.Call) and ast.unparse(x.func) in ("repeat", "itertools.repeat") and 1 <= len(x.args) <= 2 and not x.keywords
+                        and isinstance(x.args[0], (ast.Name, ast.Constant)) for x in node.args[1:]):
+            bounds = [x.args[1] for x in node.args[1:] if len(x.args) == 2]
+            if len(bounds) == 1:
+                elt = ast.Call(func=node.args[0], args=[x.args[0] for x in node.args[1:]], keywords=[])
+                rng = ast.Call(func=ast.Name(id="range", ctx=ast.Load()), args=[bounds[0]], keywords=[])
+                return ast.copy_location(ast.GeneratorExp(elt=elt, generators=[ast.comprehension(target=ast.Name(id="_", ctx=ast.Store()), iter=rng, ifs=[], is_async=0)]), node)
         # map(F, X) -> (F(v) for v in X) ;  map(F, repeat(x, n)) -> (F(x) for _ in range(n)) ;  filter(lambda v: C, X) -> (v for v in X if C)
         if fn == "map" and len(node.args) == 2 and not node.keywords and isinstance(node.args[0], (ast.Name, ast.Attribute, ast.Call, ast.Lambda)):
             f, xs = node.args
@@ -536,6 +572,17 @@ class Desugar(ast.NodeTransformer):
             lam, xs = node.args
             v = lam.args.args[0].arg
             return ast.copy_location(ast.GeneratorExp(elt=ast.Name(id=v, ctx=ast.Load()), generators=[ast.comprehension(target=ast.Name(id=v, ctx=ast.Store()), iter=xs, ifs=[lam.body], is_async=0)]), node)
+        # np.fromiter(G, dtype=D)  ->  np.array([G..], dtype=D)        (the items of the generator, in order, as an array of that dtype)
+        if fn in ("np.fromiter", "numpy.fromiter") and node.args and isinstance(node.args[0], (ast.GeneratorExp, ast.ListComp)) \
+                and all(k.arg in ("dtype", "count") for k in node.keywords) and len(node.args) <= 2:
+            dt = node.args[1] if len(node.args) == 2 else next((k.value for k in node.keywords if k.arg == "dtype"), None)
+            if dt is not None:
+                lst = ast.ListComp(elt=node.args[0].elt, generators=node.args[0].generators)
+                return ast.copy_location(ast.Call(func=ast.Attribute(value=ast.Name(id="np", ctx=ast.Load()), attr="array", ctx=ast.Load()), args=[lst],
+                                                  keywords=[ast.keyword(arg="dtype", value=dt)]), node)
+        # open(P, mode)  ->  P.open(mode)        (builtin open on a path object: the same file, the same mode)
+        if fn == "open" and 1 <= len(node.args) <= 2 and isinstance(node.args[0], (ast.Name, ast.Attribute)) and all(k.arg in ("mode",) for k in node.keywords):
+            return ast.copy_location(ast.Call(func=ast.Attribute(value=node.args[0], attr="open", ctx=ast.Load()), args=list(node.args[1:]), keywords=node.keywords), node)
         # list(<generator>) -> [..]
         if fn == "list" and len(node.args) == 1 and not node.keywords and isinstance(node.args[0], ast.GeneratorExp):
             return ast.copy_location(self.visit_ListComp(ast.ListComp(elt=node.args[0].elt, generators=node.args[0].generators)), node)
@@ -566,6 +613,13 @@ class Desugar(ast.NodeTransformer):
             start = node.args[0].args[0] if node.args[0].args else ast.Constant(value=0)
             return ast.copy_location(ast.Call(func=ast.Name(id="enumerate", ctx=ast.Load()), args=[node.args[1]], keywords=[ast.keyword(arg="start", value=start)]), node)
         # islice(X, a, None)
+        if fn in ("islice", "itertools.islice") and len(node.args) == 3 and isinstance(node.args[2], ast.Constant) and node.args[2].value is None \
+                and isinstance(node.args[0], ast.Call) and ast.unparse(node.args[0].func) == "enumerate" and len(node.args[0].args) == 1 and not node.args[0].keywords \
+                and isinstance(node.args[1], (ast.Name, ast.Constant, ast.BinOp)):
+            # islice(enumerate(L), a, None)  ->  enumerate(L[a:], start=a)      (the same (index, item) pairs)
+            L = node.args[0].args[0]
+            sl = ast.Subscript(value=L, slice=ast.Slice(lower=copy.deepcopy(node.args[1]), upper=None, step=None), ctx=ast.Load())
+            return ast.copy_location(ast.Call(func=ast.Name(id="enumerate", ctx=ast.Load()), args=[sl], keywords=[ast.keyword(arg="start", value=node.args[1])]), node)
         if fn in ("islice", "itertools.islice") and len(node.args) == 3 and isinstance(node.args[2], ast.Constant) and node.args[2].value is None:
             return ast.copy_location(ast.Subscript(value=node.args[0], slice=ast.Slice(lower=node.args[1], upper=None, step=None), ctx=ast.Load()), node)
         # all(map(operator.eq, a, b))
@@ -686,6 +740,12 @@ class Desugar(ast.NodeTransformer):
     def visit_For(self, node):
         self.generic_visit(node)
         it = node.iter
+        # for x in CODEC.bread(stream, n): ..   ->   _it = CODEC.bread(stream, n); for x in _it: ..      (the iterable is evaluated once, first)
+        if isinstance(it, ast.Call) and isinstance(it.func, ast.Attribute) and it.func.attr in ("bread", "read") and isinstance(it.func.value, ast.Name):
+            tmp = f"_it{next(_counter)}"
+            pre = ast.copy_location(ast.Assign(targets=[ast.Name(id=tmp, ctx=ast.Store())], value=it, lineno=node.lineno), node)
+            node.iter = ast.copy_location(ast.Name(id=tmp, ctx=ast.Load()), it)
+            return [pre, node]
         if isinstance(it, ast.Call) and not node.orelse:
             fn = ast.unparse(it.func)
             # for v in list(X) / tuple(X)  with X an iteration helper over pure arguments  ->  for v in X
@@ -694,7 +754,17 @@ class Desugar(ast.NodeTransformer):
                     and not any(isinstance(x, ast.Call) and ast.unparse(x.func) not in ("range", "len", "product", "itertools.product", "zip", "enumerate") for x in ast.walk(it.args[0])):
                 node.iter = it = it.args[0]
                 fn = ast.unparse(it.func)
-            # for v in repeat(E, n)  ->  for _ in range(n) [v = E]        (E a name or literal: the same object every time)
+            # for i, v in enumerate((E for _ in range(n))): B   ->   for i in range(n): v = E; B        (generator variable unused in E)
+        if isinstance(it, ast.Call) and ast.unparse(it.func) == "enumerate" and len(it.args) == 1 and not it.keywords and isinstance(it.args[0], (ast.GeneratorExp, ast.ListComp)) \
+                and len(it.args[0].generators) == 1 and not it.args[0].generators[0].ifs and isinstance(node.target, ast.Tuple) and len(node.target.elts) == 2 \
+                and all(isinstance(t, ast.Name) for t in node.target.elts) and not node.orelse:
+            g = it.args[0].generators[0]
+            r = g.iter
+            if isinstance(r, ast.Call) and ast.unparse(r.func) == "range" and len(r.args) == 1 and isinstance(g.target, ast.Name) \
+                    and not any(isinstance(x, ast.Name) and x.id == g.target.id for x in ast.walk(it.args[0].elt)):
+                bind = ast.copy_location(ast.Assign(targets=[node.target.elts[1]], value=it.args[0].elt, lineno=node.lineno), node)
+                return ast.copy_location(ast.For(target=node.target.elts[0], iter=r, body=[bind] + node.body, orelse=[], type_comment=None), node)
+        # for v in repeat(E, n)  ->  for _ in range(n) [v = E]        (E a name or literal: the same object every time)
             if fn in ("repeat", "itertools.repeat") and len(it.args) == 2 and not it.keywords and isinstance(node.target, ast.Name) \
                     and isinstance(it.args[0], (ast.Name, ast.Constant)):
                 used = any(isinstance(x, ast.Name) and x.id == node.target.id for s_ in node.body for x in ast.walk(s_))
@@ -787,6 +857,21 @@ def inline_closures(tree):
         local = [d for d in local if id(d) not in nested_inside and not d.decorator_list]
         if not local:
             continue
+        # for v in X: closure(*v)   with closure(a, b) a local def   ==>   for v_0, v_1 in X: closure(v_0, v_1)
+        arity = {d.name: len(d.args.args) for d in local if not d.args.vararg and not d.args.kwarg and not d.args.kwonlyargs and not d.args.defaults}
+        for loop in [x for x in ast.walk(fn) if isinstance(x, ast.For) and isinstance(x.target, ast.Name)]:
+            v = loop.target.id
+            uses = [x for s_ in loop.body + loop.orelse for x in ast.walk(s_) if isinstance(x, ast.Name) and x.id == v]
+            calls = [c for s_ in loop.body + loop.orelse for c in ast.walk(s_) if isinstance(c, ast.Call) and isinstance(c.func, ast.Name) and c.func.id in arity
+                     and len(c.args) == 1 and isinstance(c.args[0], ast.Starred) and isinstance(c.args[0].value, ast.Name) and c.args[0].value.id == v and not c.keywords]
+            if uses and len(uses) == len(calls) and len({arity[c.func.id] for c in calls}) == 1 and arity[calls[0].func.id] >= 2:
+                k = arity[calls[0].func.id]
+                names = [f"{v}_{i}" for i in range(k)]
+                if not any(isinstance(x, ast.Name) and x.id in names for x in ast.walk(fn)):
+                    for c in calls:
+                        c.args = [ast.Name(id=nm, ctx=ast.Load()) for nm in names]
+                    loop.target = ast.copy_location(ast.Tuple(elts=[ast.Name(id=nm, ctx=ast.Store()) for nm in names], ctx=ast.Store()), loop.target)
+                    ast.fix_missing_locations(loop)
         helpers = {}
         for d in local:
             # used only through direct calls
@@ -794,6 +879,16 @@ def inline_closures(tree):
             calls = [x for x in ast.walk(fn) if isinstance(x, ast.Call) and isinstance(x.func, ast.Name) and x.func.id == d.name]
             if not loads or len(loads) != len(calls):
                 continue
+            # def f(a, *rest)  called as f(x, p, q)   ==>   def f(a, rest)  called as f(x, (p, q))      (`rest` IS the tuple of the extra arguments)
+            if d.args.vararg and not d.args.kwarg and not d.args.kwonlyargs and not d.args.defaults \
+                    and not any(isinstance(x, ast.Name) and x.id == d.args.vararg.arg and isinstance(x.ctx, (ast.Store, ast.Del)) for x in ast.walk(d)) \
+                    and all(not c.keywords and not any(isinstance(a, ast.Starred) for a in c.args) and len(c.args) >= len(d.args.args) for c in calls):
+                k = len(d.args.args)
+                for c in calls:
+                    c.args = c.args[:k] + [ast.copy_location(ast.Tuple(elts=c.args[k:], ctx=ast.Load()), c)]
+                d.args.args.append(ast.arg(arg=d.args.vararg.arg, annotation=None))
+                d.args.vararg = None
+                ast.fix_missing_locations(fn)
             if any(isinstance(x, (ast.Yield, ast.YieldFrom, ast.Global, ast.Nonlocal, ast.Lambda)) for x in ast.walk(d)):
                 continue
             h = Helper(d, None, "function")
@@ -979,6 +1074,27 @@ def dtype_names(tree):
     if not wrapped and not plain:
         return 0
     n = [0]
+    # x = np.empty(.., dtype=D) (x bound once in the function)  ...  x.dtype   ==>   D      (an array keeps the dtype it was created with)
+    for fn in [f for f in ast.walk(tree) if isinstance(f, ast.FunctionDef)]:
+        st_count = {}
+        for x in ast.walk(fn):
+            if isinstance(x, ast.Name) and isinstance(x.ctx, (ast.Store, ast.Del)):
+                st_count[x.id] = st_count.get(x.id, 0) + 1
+        made = {}
+        for st in ast.walk(fn):
+            if isinstance(st, ast.Assign) and len(st.targets) == 1 and isinstance(st.targets[0], ast.Name) and st_count.get(st.targets[0].id) == 1 \
+                    and isinstance(st.value, ast.Call) and ast.unparse(st.value.func) in ("np.empty", "np.zeros", "np.ones", "np.full", "numpy.empty", "numpy.zeros", "numpy.ones", "numpy.full"):
+                dt = next((k.value for k in st.value.keywords if k.arg == "dtype"), None)
+                if dt is not None and st.targets[0].id not in {a.arg for a in fn.args.args + fn.args.kwonlyargs}:
+                    made[st.targets[0].id] = dt
+        if made:
+            class DT(ast.NodeTransformer):
+                def visit_Attribute(self, node):
+                    self.generic_visit(node)
+                    if node.attr == "dtype" and isinstance(node.ctx, ast.Load) and isinstance(node.value, ast.Name) and node.value.id in made:
+                        return ast.copy_location(copy.deepcopy(made[node.value.id]), node)
+                    return node
+            DT().visit(fn)
 
     class R(ast.NodeTransformer):
         def visit_Attribute(self, node):
@@ -1226,13 +1342,394 @@ def transpose_views(tree):
     return n
 
 
+# ------------------------------------------------------------------------------------------- D17 static / class methods of private carrier classes
+def extract_private_class_methods(tree):
+    """class _Header(NamedTuple): ..  @classmethod def bread(cls, stream): return cls(f(stream), g(stream))
+    The static / class methods of a PRIVATE class (`_Name`) that are only ever called as `_Name.meth(..)` become private module
+    functions `_Name__meth` (cls := _Name), so that they are inlined like any private helper and the class is left a plain record."""
+    n = 0
+    for cls in [x for x in tree.body if isinstance(x, ast.ClassDef) and x.name.startswith("_") and not x.name.startswith("__")]:
+        moved = {}
+        for m in list(cls.body):
+            if not isinstance(m, ast.FunctionDef) or m.name.startswith("__"):
+                continue
+            decs = [ast.unparse(d) for d in m.decorator_list]
+            if decs not in (["staticmethod"], ["classmethod"]):
+                continue
+            # every mention of <cls>.<meth> in the module is the callee of a call
+            uses = [x for x in ast.walk(tree) if isinstance(x, ast.Attribute) and x.attr == m.name and isinstance(x.value, ast.Name) and x.value.id in (cls.name, "cls")]
+            calls = [c for c in ast.walk(tree) if isinstance(c, ast.Call) and isinstance(c.func, ast.Attribute) and c.func.attr == m.name and isinstance(c.func.value, ast.Name)
+                     and c.func.value.id == cls.name]
+            if not calls or len(uses) != len(calls):
+                continue
+            fn = copy.deepcopy(m)
+            fn.decorator_list = []
+            fn.name = f"{cls.name}__{m.name}"
+            if decs == ["classmethod"]:
+                if not fn.args.args:
+                    continue
+                cp = fn.args.args[0].arg
+                fn.args.args = fn.args.args[1:]
+                if any(isinstance(x, ast.Name) and x.id == cp and isinstance(x.ctx, ast.Store) for x in ast.walk(fn)):
+                    continue
+
+                class C(ast.NodeTransformer):
+                    def visit_Name(self, node):
+                        if node.id == cp and isinstance(node.ctx, ast.Load):
+                            return ast.copy_location(ast.Name(id=cls.name, ctx=ast.Load()), node)
+                        return node
+
+                C().visit(fn)
+            moved[m.name] = (m, fn)
+        for name, (m, fn) in moved.items():
+            cls.body = [b for b in cls.body if b is not m] or [ast.Pass()]
+            tree.body.insert(tree.body.index(cls) + 1, fn)
+            for c in ast.walk(tree):
+                if isinstance(c, ast.Call) and isinstance(c.func, ast.Attribute) and c.func.attr == name and isinstance(c.func.value, ast.Name) and c.func.value.id == cls.name:
+                    c.func = ast.copy_location(ast.Name(id=fn.name, ctx=ast.Load()), c.func)
+            n += 1
+    if n:
+        ast.fix_missing_locations(tree)
+    return n
+
+
+# ------------------------------------------------------------------------------------------- D18 .flat of a two-dimensional attribute
+def flat_iteration(tree):
+    """In a class one of whose methods unpacks `a, b = self.X.shape` (X is two-dimensional), iterating `self.X.flat` visits
+    `self.X[i, j]` for i in range(shape[0]) for j in range(shape[1]) (row-major): comprehensions and for-loops over it are spelled
+    that way, like the double loops the writers use."""
+    n = 0
+    for cls in [x for x in tree.body if isinstance(x, ast.ClassDef)]:
+        two_d = set()
+        for a in ast.walk(cls):
+            if isinstance(a, ast.Assign) and len(a.targets) == 1 and isinstance(a.targets[0], ast.Tuple) and len(a.targets[0].elts) == 2 \
+                    and isinstance(a.value, ast.Attribute) and a.value.attr == "shape" and isinstance(a.value.value, ast.Attribute) \
+                    and isinstance(a.value.value.value, ast.Name) and a.value.value.value.id == "self":
+                two_d.add(a.value.value.attr)
+        if not two_d:
+            continue
+
+        def is_flat(e):
+            return isinstance(e, ast.Attribute) and e.attr == "flat" and isinstance(e.value, ast.Attribute) and isinstance(e.value.value, ast.Name) \
+                and e.value.value.id == "self" and e.value.attr in two_d
+
+        def shape(x, i):
+            return ast.Call(func=ast.Name(id="range", ctx=ast.Load()),
+                            args=[ast.Subscript(value=ast.Attribute(value=copy.deepcopy(x), attr="shape", ctx=ast.Load()), slice=ast.Constant(value=i), ctx=ast.Load())], keywords=[])
+
+        class F(ast.NodeTransformer):
+            def _comp(self, node):
+                self.generic_visit(node)
+                if len(node.generators) == 1 and is_flat(node.generators[0].iter) and isinstance(node.generators[0].target, ast.Name):
+                    nonlocal n
+                    g = node.generators[0]
+                    k = next(_counter)
+                    i, j = f"_fi{k}", f"_fj{k}"
+                    x = g.iter.value
+                    cell = ast.Subscript(value=copy.deepcopy(x), slice=ast.Tuple(elts=[ast.Name(id=i, ctx=ast.Load()), ast.Name(id=j, ctx=ast.Load())], ctx=ast.Load()), ctx=ast.Load())
+                    env = {g.target.id: cell}
+                    if isinstance(node, ast.DictComp):
+                        node.key, node.value = _subst(node.key, env), _subst(node.value, env)
+                    else:
+                        node.elt = _subst(node.elt, env)
+                    ifs = [_subst(c, env) for c in g.ifs]
+                    node.generators = [ast.comprehension(target=ast.Name(id=i, ctx=ast.Store()), iter=shape(x, 0), ifs=[], is_async=0),
+                                       ast.comprehension(target=ast.Name(id=j, ctx=ast.Store()), iter=shape(x, 1), ifs=ifs, is_async=0)]
+                    n += 1
+                return node
+
+            visit_GeneratorExp = visit_ListComp = visit_SetComp = _comp
+
+            def visit_For(self, node):
+                self.generic_visit(node)
+                if is_flat(node.iter) and isinstance(node.target, ast.Name) and not node.orelse and not _has_jump(node.body):
+                    nonlocal n
+                    k = next(_counter)
+                    i, j = f"_fi{k}", f"_fj{k}"
+                    x = node.iter.value
+                    cell = ast.Subscript(value=copy.deepcopy(x), slice=ast.Tuple(elts=[ast.Name(id=i, ctx=ast.Load()), ast.Name(id=j, ctx=ast.Load())], ctx=ast.Load()), ctx=ast.Load())
+                    bind = ast.copy_location(ast.Assign(targets=[node.target], value=cell, lineno=node.lineno), node)
+                    inner = ast.copy_location(ast.For(target=ast.Name(id=j, ctx=ast.Store()), iter=shape(x, 1), body=[bind] + node.body, orelse=[], type_comment=None), node)
+                    n += 1
+                    return ast.copy_location(ast.For(target=ast.Name(id=i, ctx=ast.Store()), iter=shape(x, 0), body=[inner], orelse=[], type_comment=None), node)
+                return node
+
+        F().visit(cls)
+    if n:
+        ast.fix_missing_locations(tree)
+    return n
+
+
+# ------------------------------------------------------------------------------------------- D19 straight-line generators consumed by a for
+def unroll_yield_sequences(tree):
+    """def _fields(self): yield E1; yield E2; ..        for v in self._fields(): BODY
+    ==>   v = E1; BODY; v = E2; BODY; ..       (each E is evaluated only when the loop asks for the next item - the interleaving a
+    generator gives - so a value that cannot be produced still fails AFTER the earlier items were consumed)."""
+    n = 0
+    gens = {}
+    def scan(owner_body, cname):
+        for fn in owner_body:
+            if isinstance(fn, ast.FunctionDef) and fn.name.startswith("_") and not fn.name.startswith("__") and not fn.decorator_list:
+                body = [b for b in fn.body if not (isinstance(b, ast.Expr) and isinstance(b.value, ast.Constant))]
+                if body and len(body) <= 16 and all(isinstance(b, ast.Expr) and isinstance(b.value, ast.Yield) and b.value.value is not None for b in body) \
+                        and not fn.args.vararg and not fn.args.kwarg and not fn.args.kwonlyargs and not fn.args.defaults \
+                        and not any(isinstance(x, (ast.Lambda, ast.NamedExpr)) for b in body for x in ast.walk(b)):
+                    gens[(cname, fn.name)] = (fn, [b.value.value for b in body])
+    scan(tree.body, None)
+    for cls in [x for x in tree.body if isinstance(x, ast.ClassDef)]:
+        scan(cls.body, cls.name)
+    if not gens:
+        return 0
+
+    def site(call, cname):
+        """(fn, exprs, env) when `call` invokes one of the generators"""
+        f = call.func
+        if call.keywords or any(isinstance(a, ast.Starred) for a in call.args):
+            return None
+        if isinstance(f, ast.Name) and (None, f.id) in gens:
+            fn, exprs = gens[(None, f.id)]
+            params = [a.arg for a in fn.args.args]
+            recv = None
+        elif isinstance(f, ast.Attribute) and isinstance(f.value, ast.Name) and cname is not None and (cname, f.attr) in gens and f.value.id in ("self", cname):
+            fn, exprs = gens[(cname, f.attr)]
+            params = [a.arg for a in fn.args.args]
+            if f.value.id == "self":
+                if not params:
+                    return None
+                recv, params = (params[0], f.value), params[1:]
+            else:
+                recv = None
+        else:
+            return None
+        if len(params) != len(call.args) or not all(isinstance(a, (ast.Name, ast.Constant)) or (isinstance(a, ast.Attribute) and isinstance(a.value, ast.Name)) for a in call.args):
+            return None
+        env = dict(zip(params, call.args))
+        if recv is not None:
+            env[recv[0]] = recv[1]
+        return fn, exprs, env
+
+    used = set()
+
+    def rewrite(fnode, cname):
+        nonlocal n
+
+        class U(ast.NodeTransformer):
+            def visit_For(self, node):
+                self.generic_visit(node)
+                if isinstance(node.iter, ast.Call) and isinstance(node.target, ast.Name) and not node.orelse and not _has_jump(node.body):
+                    st = site(node.iter, cname)
+                    if st is not None:
+                        fn, exprs, env = st
+                        out = []
+                        for e in exprs:
+                            out.append(ast.copy_location(ast.Assign(targets=[ast.Name(id=node.target.id, ctx=ast.Store())], value=_subst(e, env), lineno=node.lineno), node))
+                            out += [copy.deepcopy(b) for b in node.body]
+                        used.add(id(fn))
+                        nonlocal_n[0] += 1
+                        return out
+                return node
+
+        nonlocal_n = [0]
+        U().visit(fnode)
+        n += nonlocal_n[0]
+
+    for st in tree.body:
+        if isinstance(st, ast.FunctionDef) and not any(st is g[0] for g in gens.values()):
+            rewrite(st, None)
+        elif isinstance(st, ast.ClassDef):
+            for m in st.body:
+                if isinstance(m, ast.FunctionDef) and not any(m is g[0] for g in gens.values()):
+                    rewrite(m, st.name)
+    # generators with no remaining mention are dropped
+    for (cname, name), (fn, _) in gens.items():
+        if id(fn) not in used:
+            continue
+        if any(isinstance(x, ast.Attribute) and x.attr == name for x in ast.walk(tree)) or any(isinstance(x, ast.Name) and x.id == name and isinstance(x.ctx, ast.Load) for x in ast.walk(tree)):
+            continue
+        if cname is None:
+            tree.body = [b for b in tree.body if b is not fn]
+        else:
+            for c in tree.body:
+                if isinstance(c, ast.ClassDef) and c.name == cname:
+                    c.body = [b for b in c.body if b is not fn] or [ast.Pass()]
+    if n:
+        ast.fix_missing_locations(tree)
+    return n
+
+
+# ------------------------------------------------------------------------------------------- D20 explicit property(...) construction
+def explicit_properties(tree):
+    """class C:  def _get(self): ..   def _set(self, v): ..   name = property(_get, _set)      (fget= / fset= keywords too)
+    ==>  @property def name(self): ..    @name.setter def name(self, v): ..          when _get / _set are used for nothing else"""
+    n = 0
+    for cls in [x for x in tree.body if isinstance(x, ast.ClassDef)]:
+        for st in list(cls.body):
+            if not (isinstance(st, ast.Assign) and len(st.targets) == 1 and isinstance(st.targets[0], ast.Name) and isinstance(st.value, ast.Call)
+                    and ast.unparse(st.value.func) == "property"):
+                continue
+            call = st.value
+            parts = {}
+            for nm, a in zip(("fget", "fset", "fdel", "doc"), call.args):
+                parts[nm] = a
+            for k in call.keywords:
+                if k.arg:
+                    parts[k.arg] = k.value
+            if "fget" not in parts or any(k not in ("fget", "fset", "doc") for k in parts) or not all(isinstance(parts[k], ast.Name) for k in ("fget", "fset") if k in parts):
+                continue
+            name = st.targets[0].id
+            fns = {m.name: m for m in cls.body if isinstance(m, ast.FunctionDef)}
+            g = fns.get(parts["fget"].id)
+            se = fns.get(parts["fset"].id) if "fset" in parts else None
+            if g is None or g.decorator_list or ("fset" in parts and (se is None or se.decorator_list)):
+                continue
+            others = [x for x in ast.walk(tree) if (isinstance(x, ast.Name) and x.id in (g.name, se.name if se else g.name) and isinstance(x.ctx, ast.Load))
+                      or (isinstance(x, ast.Attribute) and x.attr in (g.name, se.name if se else g.name))]
+            if len(others) != (2 if se else 1):
+                continue
+            g.name = name
+            g.decorator_list = [ast.Name(id="property", ctx=ast.Load())]
+            if se is not None:
+                se.name = name
+                se.decorator_list = [ast.Attribute(value=ast.Name(id=name, ctx=ast.Load()), attr="setter", ctx=ast.Load())]
+            # keep definition order: getter, then setter, in the place of the assignment
+            body = [b for b in cls.body if b is not st and b is not g and b is not se]
+            idx = min(cls.body.index(g), cls.body.index(st))
+            idx = min(idx, len(body))
+            body[idx:idx] = [g] + ([se] if se is not None else [])
+            cls.body = body
+            n += 1
+    if n:
+        ast.fix_missing_locations(tree)
+    return n
+
+
+# ------------------------------------------------------------------------------------------- D21 a record serialised once in memory
+def scratch_row_replay(tree):
+    """with BytesIO() as B: <codec writes to B>; X = B.getvalue()      ... F.write(X)        (X used for nothing else; F a local file name)
+    ==>  <the same codec writes to F> at the place of F.write(X)
+    The bytes that reach F are the ones the writes produce; their arguments are pure and nothing they read is rebound in between."""
+    n = 0
+    for fn in [x for x in ast.walk(tree) if isinstance(x, ast.FunctionDef)]:
+        for owner, fld in list(_blocks(fn)):
+            stmts = getattr(owner, fld)
+            for i, w in enumerate(stmts):
+                if not (isinstance(w, ast.With) and len(w.items) == 1 and isinstance(w.items[0].optional_vars, ast.Name) and isinstance(w.items[0].context_expr, ast.Call)
+                        and ast.unparse(w.items[0].context_expr.func) in ("BytesIO", "io.BytesIO") and not w.items[0].context_expr.args and len(w.body) >= 2):
+                    continue
+                b = w.items[0].optional_vars.id
+                last = w.body[-1]
+                if not (isinstance(last, ast.Assign) and len(last.targets) == 1 and isinstance(last.targets[0], ast.Name) and isinstance(last.value, ast.Call)
+                        and ast.unparse(last.value) == f"{b}.getvalue()"):
+                    continue
+                x = last.targets[0].id
+                writes = w.body[:-1]
+                ok = True
+                reads = set()
+                for st in writes:
+                    if not (isinstance(st, ast.Expr) and isinstance(st.value, ast.Call)):
+                        ok = False
+                        break
+                    c = st.value
+                    uses_b = [a for a in ast.walk(c) if isinstance(a, ast.Name) and a.id == b]
+                    if len(uses_b) != 1 or not (uses_b[0] in c.args or (isinstance(c.func, ast.Attribute) and c.func.value is uses_b[0] and c.func.attr == "write")):
+                        ok = False
+                        break
+                    for a in c.args + [k.value for k in c.keywords]:
+                        if a is uses_b[0]:
+                            continue
+                        if any(isinstance(q, (ast.Call, ast.NamedExpr, ast.Await, ast.Yield)) for q in ast.walk(a)):
+                            ok = False
+                        reads |= {q.id for q in ast.walk(a) if isinstance(q, ast.Name)}
+                if not ok:
+                    continue
+                rest = stmts[i + 1:]
+                x_uses = [q for s_ in ast.walk(fn) for q in [s_] if isinstance(q, ast.Name) and q.id == x]
+                b_uses_outside = [q for s_ in rest for q in ast.walk(s_) if isinstance(q, ast.Name) and q.id == b]
+                if len(x_uses) != 2 or b_uses_outside:
+                    continue
+                # the single use:  F.write(X)  as a statement, in the rest of this block (possibly inside for-loops)
+                site = None
+
+                def find(block, loops):
+                    nonlocal site
+                    for k, s_ in enumerate(block):
+                        if isinstance(s_, ast.Expr) and isinstance(s_.value, ast.Call) and isinstance(s_.value.func, ast.Attribute) and s_.value.func.attr == "write" \
+                                and isinstance(s_.value.func.value, ast.Name) and len(s_.value.args) == 1 and isinstance(s_.value.args[0], ast.Name) and s_.value.args[0].id == x \
+                                and not s_.value.keywords:
+                            site = (block, k, list(loops))
+                            return
+                        if isinstance(s_, ast.For) and not s_.orelse:
+                            find(s_.body, loops + [s_])
+                            if site:
+                                return
+                find(rest, [])
+                if site is None:
+                    continue
+                block, k, loops = site
+                f_name = block[k].value.func.value.id
+                # nothing the writes read is rebound between the scratch block and the use (nor inside the loops around the use)
+                span = rest[:rest.index(loops[0]) + 1] if loops else rest[:rest.index(block[k])] if block is rest else None
+                if span is None:
+                    continue
+                stored = {q.id for s_ in span for q in ast.walk(s_) if isinstance(q, ast.Name) and isinstance(q.ctx, (ast.Store, ast.Del))}
+                if stored & (reads | {f_name}) or f_name == b:
+                    continue
+
+                class RB(ast.NodeTransformer):
+                    def visit_Name(self, node):
+                        return ast.copy_location(ast.Name(id=f_name, ctx=node.ctx), node) if node.id == b else node
+                replay = [RB().visit(copy.deepcopy(st)) for st in writes]
+                block[k:k + 1] = replay
+                setattr(owner, fld, (stmts[:i] + rest) or [ast.Pass()])
+                n += 1
+                break
+    if n:
+        ast.fix_missing_locations(tree)
+    return n
+
+
+# ------------------------------------------------------------------------------------------- D22 conditionally entered context
+def exitstack_conditional(tree):
+    """with ExitStack() as S:  if C: S.enter_context(X)  BODY        (S used for nothing else)
+    ==>  if C: with X: BODY   else: BODY            (the stack leaves exactly the contexts that were entered)"""
+    n = 0
+    for fn in [x for x in ast.walk(tree) if isinstance(x, ast.FunctionDef)]:
+        for owner, fld in list(_blocks(fn)):
+            stmts = getattr(owner, fld)
+            for i, w in enumerate(stmts):
+                if not (isinstance(w, ast.With) and len(w.items) == 1 and isinstance(w.items[0].optional_vars, ast.Name) and isinstance(w.items[0].context_expr, ast.Call)
+                        and ast.unparse(w.items[0].context_expr.func) in ("ExitStack", "contextlib.ExitStack") and not w.items[0].context_expr.args and len(w.body) >= 2):
+                    continue
+                sname = w.items[0].optional_vars.id
+                first = w.body[0]
+                if not (isinstance(first, ast.If) and not first.orelse and len(first.body) == 1 and isinstance(first.body[0], ast.Expr) and isinstance(first.body[0].value, ast.Call)
+                        and ast.unparse(first.body[0].value.func) == f"{sname}.enter_context" and len(first.body[0].value.args) == 1 and not first.body[0].value.keywords):
+                    continue
+                uses = [q for q in ast.walk(w) if isinstance(q, ast.Name) and q.id == sname]
+                if len(uses) != 2 or any(isinstance(q, ast.Name) and q.id == sname for q in ast.walk(first.test)):
+                    continue
+                body = w.body[1:]
+                inner = ast.copy_location(ast.With(items=[ast.withitem(context_expr=first.body[0].value.args[0], optional_vars=None)], body=body, type_comment=None), w)
+                stmts[i] = ast.copy_location(ast.If(test=first.test, body=[inner], orelse=copy.deepcopy(body)), w)
+                n += 1
+    if n:
+        ast.fix_missing_locations(tree)
+    return n
+
+
 # ------------------------------------------------------------------------------------------- D9 NamedTuple carriers
 def namedtuples(tree):
     out = {}
     for st in tree.body:
-        if isinstance(st, ast.ClassDef) and any(ast.unparse(b) in ("NamedTuple", "typing.NamedTuple") for b in st.bases):
+        # a NamedTuple, or a frozen dataclass without bases (an immutable record of its annotated fields, in declaration order)
+        frozen_dc = isinstance(st, ast.ClassDef) and not st.bases and len(st.decorator_list) == 1 and isinstance(st.decorator_list[0], ast.Call) \
+            and ast.unparse(st.decorator_list[0].func) in ("dataclass", "dataclasses.dataclass") and not st.decorator_list[0].args \
+            and any(k.arg == "frozen" and isinstance(k.value, ast.Constant) and k.value.value is True for k in st.decorator_list[0].keywords) \
+            and all(k.arg in ("frozen", "slots", "eq", "repr") for k in st.decorator_list[0].keywords)
+        if isinstance(st, ast.ClassDef) and (frozen_dc or any(ast.unparse(b) in ("NamedTuple", "typing.NamedTuple") for b in st.bases)):
             fields = [s.target.id for s in st.body if isinstance(s, ast.AnnAssign) and isinstance(s.target, ast.Name)]
             props = {}
+            methods = {}
             simple = True
             for s in st.body:
                 if isinstance(s, ast.FunctionDef):
@@ -1240,11 +1737,16 @@ def namedtuples(tree):
                     if [ast.unparse(d) for d in s.decorator_list] == ["property"] and len(body) == 1 and isinstance(body[0], ast.Return) and body[0].value is not None \
                             and len(s.args.args) == 1:
                         props[s.name] = (s.args.args[0].arg, body[0].value)
+                    elif not s.decorator_list and len(body) == 1 and isinstance(body[0], ast.Return) and body[0].value is not None and len(s.args.args) == 1 \
+                            and not s.args.vararg and not s.args.kwarg and not s.name.startswith("__"):
+                        # a parameterless one-expression method: `Rec(..).m()` is that expression
+                        methods[s.name] = (s.args.args[0].arg, body[0].value)
                     else:
                         simple = False
             if fields and simple:
                 out[st.name] = fields
                 NT_PROPS[st.name] = props
+                NT_METHODS[st.name] = methods
                 NT_DEFAULTS[st.name] = {s.target.id: s.value for s in st.body if isinstance(s, ast.AnnAssign) and isinstance(s.target, ast.Name) and s.value is not None}
         if isinstance(st, ast.Assign) and len(st.targets) == 1 and isinstance(st.targets[0], ast.Name) and isinstance(st.value, ast.Call) \
                 and ast.unparse(st.value.func) in ("namedtuple", "collections.namedtuple") and len(st.value.args) == 2:
@@ -1258,6 +1760,7 @@ def namedtuples(tree):
 
 NT_DEFAULTS = {}
 NT_PROPS = {}  # class -> {property name: expression over self}
+NT_METHODS = {}  # class -> {parameterless method name: expression over self}
 NT_NAMES = set()
 
 
@@ -1308,6 +1811,37 @@ class NamedTupleReduce(ast.NodeTransformer):
 
             self.changed = True
             return P().visit(copy.deepcopy(expr))
+        return node
+
+    def visit_Call(self, node):
+        self.generic_visit(node)
+        # Record(a, b).method()  ->  the method's expression over the constructor arguments
+        if isinstance(node.func, ast.Attribute) and not node.args and not node.keywords:
+            a = self._ctor(node.func.value)
+            if a is not None and node.func.attr in NT_METHODS.get(node.func.value.func.id, {}):
+                selfname, expr = NT_METHODS[node.func.value.func.id][node.func.attr]
+                fields = self.nts[node.func.value.func.id]
+
+                class P(ast.NodeTransformer):
+                    def visit_Attribute(self, n):
+                        if isinstance(n.value, ast.Name) and n.value.id == selfname and n.attr in fields:
+                            return copy.deepcopy(a[fields.index(n.attr)])
+                        self.generic_visit(n)
+                        return n
+
+                self.changed = True
+                return P().visit(copy.deepcopy(expr))
+        # f(*Record(a, b), c)  ->  f(a, b, c)        (a record is the tuple of its fields, in declaration order)
+        if any(isinstance(x, ast.Starred) and self._ctor(x.value) is not None for x in node.args):
+            args = []
+            for x in node.args:
+                a = self._ctor(x.value) if isinstance(x, ast.Starred) else None
+                if a is not None:
+                    args += list(a)
+                    self.changed = True
+                else:
+                    args.append(x)
+            node.args = args
         return node
 
     def visit_Subscript(self, node):
@@ -1582,9 +2116,14 @@ def desugar_module(tree: ast.Module):
     collect_list_attrs(tree)
     MatchToIf().visit(tree)
     ast.fix_missing_locations(tree)
+    explicit_properties(tree)
+    exitstack_conditional(tree)
     inline_contextmanagers(tree)
+    unroll_yield_sequences(tree)
     inline_self_subscripts(tree)
+    flat_iteration(tree)
     bytearray_assembly(tree)
+    scratch_row_replay(tree)
     dtype_names(tree)
     WalrusHoist().run(tree)
     WhileToFor().run(tree)
